@@ -338,6 +338,19 @@ def check_hooks():
                 viol.append(("restricted-view-refused-write-had-effect", name))
             real.__dict__.clear()
             real.__dict__.update(before)
+        # an explicitly EMPTY write list means: nothing is writable (for every way of spelling empty)
+        for empty in ((), [], set(), frozenset()):
+            real2 = Real()
+            real2.a = "A"
+            rv2 = restricted(real2, ["a"], empty)
+            idp = peer.lend(rv2)
+            n += 2
+            k, a = peer.request(6, RP.yours(idp), RP.val("a"), RP.val("W"))
+            if k == R.REPLY or real2.a != "A":
+                viol.append(("restricted-view-write:read-only-view-written:%s" % type(empty).__name__, "cfg %r" % (cfg,)))
+            k, a = peer.request(4, RP.yours(idp), RP.val("a"))
+            if (k, a) != (R.REPLY, RP.val("A")):
+                viol.append(("restricted-view-read:a:refused", "cfg %r" % (cfg,)))
         # a Service denies set/del on itself whatever the configuration
         class Sv(_rpyc.Service):
             exposed_v = 1
